@@ -753,9 +753,9 @@ where
                                     if *n == 1 {
                                         to_shrink = Some(f.clone());
                                     }
-                                    if g.seen_sigs.len() >= 4 {
-                                        shared_ref.stop.store(true, Ordering::Relaxed);
-                                    }
+                                    // an unknown failure ends the generation of new cases (what
+                                    // is running finishes); known findings never stop the search
+                                    shared_ref.stop.store(true, Ordering::Relaxed);
                                 }
                             }
                         }
